@@ -152,7 +152,7 @@ done:
 				if v, has = tv[key]; has {
 					if int(fi) == len(wx)-1 { // last one
 						if nv, changed := modifier(v); changed {
-							tv[key] = nv.(gen.Node)
+							tv[key] = genNode(nv)
 							if one && changed {
 								break done
 							}
@@ -222,7 +222,7 @@ done:
 				if 0 <= i && i < len(tv) {
 					if int(fi) == len(wx)-1 { // last one
 						if nv, changed := modifier(tv[i]); changed {
-							tv[i] = nv.(gen.Node)
+							tv[i] = genNode(nv)
 							if one && changed {
 								break done
 							}
@@ -321,7 +321,7 @@ done:
 				if int(fi) == len(wx)-1 { // last one
 					for k = range tv {
 						if nv, changed := modifier(tv[k]); changed {
-							tv[k] = nv.(gen.Node)
+							tv[k] = genNode(nv)
 							if one && changed {
 								break done
 							}
@@ -339,7 +339,7 @@ done:
 				if int(fi) == len(wx)-1 { // last one
 					for i := range tv {
 						if nv, changed := modifier(tv[i]); changed {
-							tv[i] = nv.(gen.Node)
+							tv[i] = genNode(nv)
 							if one && changed {
 								break done
 							}
@@ -425,7 +425,7 @@ done:
 						if v, has = tv[tu]; has {
 							if int(fi) == len(wx)-1 { // last one
 								if nv, changed := modifier(v); changed {
-									tv[tu] = nv.(gen.Node)
+									tv[tu] = genNode(nv)
 									if one && changed {
 										break done
 									}
@@ -497,7 +497,7 @@ done:
 						if 0 <= i && i < len(tv) {
 							if int(fi) == len(wx)-1 { // last one
 								if nv, changed := modifier(tv[i]); changed {
-									tv[i] = nv.(gen.Node)
+									tv[i] = genNode(nv)
 									if one && changed {
 										break done
 									}
@@ -665,7 +665,7 @@ done:
 					for i := start; i <= end; i += step {
 						if int(fi) == len(wx)-1 { // last one
 							if nv, changed := modifier(tv[i]); changed {
-								tv[i] = nv.(gen.Node)
+								tv[i] = genNode(nv)
 								if one && changed {
 									break done
 								}
@@ -682,7 +682,7 @@ done:
 					for i := start; end <= i; i += step {
 						if int(fi) == len(wx)-1 { // last one
 							if nv, changed := modifier(tv[i]); changed {
-								tv[i] = nv.(gen.Node)
+								tv[i] = genNode(nv)
 								if one && changed {
 									break done
 								}
@@ -804,7 +804,7 @@ done:
 					for i, vv := range tv {
 						if matches[i] {
 							if nv, changed := modifier(vv); changed {
-								tv[i] = nv.(gen.Node)
+								tv[i] = genNode(nv)
 								if one && changed {
 									break done
 								}
@@ -997,4 +997,13 @@ func modValue(nv any, et reflect.Type) reflect.Value {
 		return reflect.Zero(et)
 	}
 	return reflect.ValueOf(nv)
+}
+
+// genNode returns the value a modifier gave as a gen.Node, a nil is the
+// null of generic data as well.
+func genNode(nv any) gen.Node {
+	if nv == nil {
+		return nil
+	}
+	return nv.(gen.Node)
 }
